@@ -1,8 +1,10 @@
 //! hcv: conformance harness binding the TLA+ specifications in /verif/spec to Heathcliff.
 mod c08;
+mod c17;
 mod he;
 mod project;
 mod psets;
+mod sched;
 mod ser;
 
 use serde_json::{json, Value};
@@ -59,6 +61,7 @@ fn main() {
             out_line(&json!({"done": true}));
         }
         "c08" => c08::main(&args[2..]),
+        "c17" => c17::main(&args[2..]),
         "ser-layout" => ser::layout_events(&args[2], args[3].parse().unwrap()),
         "ser-faults" => ser::fault_replay(&args[2], args[3].parse().unwrap(), &args[4]),
         c => {
